@@ -12,7 +12,7 @@ MC_CFG = ("SPECIFICATION Spec\nCONSTANTS Programs <- %s\n Variant = \"%s\"\nINVA
 def model_checks(run):
     """TLC: all interleavings of Threads.tla at shared-access granularity; the repaired variant satisfies every invariant, and
     the model is able to express the defects (the as-found variant violates them)."""
-    for prog in ('P1', 'P2', 'P3'):
+    for prog in ('P1', 'P2', 'P3', 'P4', 'P5'):
         res = tlc.run('MC_Threads', MC_CFG % (prog, 'repaired'), timeout=900)
         run.add_tlc('Threads.tla %s repaired (all interleavings)' % prog, res)
         if res.violated:
@@ -21,6 +21,10 @@ def model_checks(run):
     run.add_tlc('Threads.tla P1 as_found (must violate an invariant)', res)
     if not res.violated:
         raise pipeline.MachineryFailure('Threads.tla cannot express the race of the pinned snapshot')
+    res = tlc.run('MC_Threads', MC_CFG % ('P4', 'pre_f8'), timeout=900)
+    run.add_tlc('Threads.tla P4 pre_f8 (closing -> closed outside the lock: must violate NothingAfterClose)', res)
+    if res.violated != 'NothingAfterClose':
+        raise pipeline.MachineryFailure('Threads.tla cannot express the closing->closed race (got %s)' % res.violated)
 
 
 def _subtree(job):
